@@ -70,7 +70,7 @@ class Rec:
             found = None
             for e in self.con_events(j):
                 if e["x"].tobytes() == key and e.get("done"):
-                    found = e["v"]
+                    found = e.get("v_stated", e["v"])
             if found is None:
                 return None
             vals.append(found)
